@@ -81,6 +81,10 @@ func genWorld(rt *rapid.T) *world {
 		w.target = "echo.test:@@ECHO@@"
 	}
 
+	// a world written entirely with the deprecated single-listener fields (no listener arrays at all)
+	legacyOnly := rapid.IntRange(0, 5).Draw(rt, "legacyOnlyWorld") == 5
+	w.legacyOnly = legacyOnly
+
 	nServers := rapid.IntRange(1, 4).Draw(rt, "nServers")
 	for i := range nServers {
 		s := &srv{name: fmt.Sprintf("s%d", i), f: fields{}}
@@ -90,7 +94,7 @@ func genWorld(rt *rapid.T) *world {
 			nets = 1
 		}
 		wantTCP, wantUDP := nets != 2, nets != 1
-		s.legacyOK = rapid.IntRange(0, 9).Draw(rt, fmt.Sprintf("s%d.legacyOK", i)) < 4
+		s.legacyOK = rapid.IntRange(0, 9).Draw(rt, fmt.Sprintf("s%d.legacyOK", i)) < 4 || legacyOnly
 		p0 := port()
 		nat := func(prefix string, f fields) {
 			// natTimeout alternatives depend on the protocol (boundary values of the statement)
@@ -109,13 +113,21 @@ func genWorld(rt *rapid.T) *world {
 			}
 		}
 		if s.legacyOK {
-			s.legacy = rapid.Bool().Draw(rt, fmt.Sprintf("s%d.legacy", i))
+			s.legacy = rapid.Bool().Draw(rt, fmt.Sprintf("s%d.legacy", i)) || legacyOnly
 			if wantTCP {
 				s.tcp = []*lst{{network: "tcp", port: p0, f: drawFields(rt, "tcpl", fmt.Sprintf("s%d.t0", i), "fastOpen", "disableInitialPayloadWait")}}
 			}
 			if wantUDP {
 				l := &lst{network: "udp", port: p0, f: drawFields(rt, "udpl", fmt.Sprintf("s%d.u0", i), "batchMode", "relayBatchSize", "serverRecvBatchSize", "sendChannelCapacity", "natTimeout")}
 				nat(fmt.Sprintf("s%d.u0", i), l.f)
+				if legacyOnly {
+					// the legacy tuning fields written out with real values
+					for _, name := range []string{"batchMode", "relayBatchSize", "serverRecvBatchSize", "sendChannelCapacity"} {
+						if alts := defs["udpl"][name].alts; l.f[name].Mode != mValue && rapid.Bool().Draw(rt, fmt.Sprintf("s%d.u0.%s.explicit", i, name)) {
+							l.f[name] = &dfield{Mode: mValue, Val: alts[rapid.IntRange(0, len(alts)-1).Draw(rt, fmt.Sprintf("s%d.u0.%s.val", i, name))]}
+						}
+					}
+				}
 				s.udp = []*lst{l}
 			}
 		} else {
@@ -145,6 +157,12 @@ func genWorld(rt *rapid.T) *world {
 					nat(fmt.Sprintf("s%d.u%d", i, j), l.f)
 					s.udp = append(s.udp, l)
 				}
+			}
+		}
+		for j, l := range s.udp {
+			// the smallest batches (every burst needs several sendmmsg/recvmmsg rounds)
+			if rapid.IntRange(0, 3).Draw(rt, fmt.Sprintf("s%d.u%d.smallBatch", i, j)) == 3 {
+				l.f["relayBatchSize"] = &dfield{Mode: mValue, Val: rapid.IntRange(1, 2).Draw(rt, fmt.Sprintf("s%d.u%d.smallBatchVal", i, j))}
 			}
 		}
 		if len(s.udp) > 0 {
@@ -185,6 +203,9 @@ func genWorld(rt *rapid.T) *world {
 		case s.proto == "socks5" || s.proto == "http":
 			if rapid.IntRange(0, 3).Draw(rt, fmt.Sprintf("s%d.auth", i)) == 3 {
 				s.authUser, s.authPass = "u"+s.name, "p"+s.name
+			}
+			if s.proto == "http" {
+				genServerTLS(rt, s, fmt.Sprintf("s%d", i))
 			}
 		}
 		w.servers = append(w.servers, s)
@@ -236,8 +257,11 @@ func genWorld(rt *rapid.T) *world {
 	}
 	for j := 1; j < len(w.servers); j++ {
 		s := w.servers[j]
-		if implicit || s.proto == "direct" || rapid.IntRange(0, 2).Draw(rt, fmt.Sprintf("c%d.make", j)) == 0 {
+		if skip := rapid.IntRange(0, 2).Draw(rt, fmt.Sprintf("c%d.make", j)) == 0; implicit || s.proto == "direct" || (skip && !s.tlsOn()) {
 			continue
+		}
+		if s.tlsRequires() && !s.tlsVerifiable() {
+			continue // a client certificate of our CA does not verify against the system roots: no chain through it
 		}
 		c := &cli{name: fmt.Sprintf("c%d", j), proto: s.proto, toServer: j}
 		c.tcp = len(s.tcp) > 0
@@ -260,6 +284,9 @@ func genWorld(rt *rapid.T) *world {
 		}
 		if c.udp {
 			c.mtu = intp(rapid.SampledFrom([]int{1500, 1280, 1492}).Draw(rt, c.name+".mtu"))
+			if s.is2022() && s.mtu != nil && *s.mtu <= 9000 && rapid.Bool().Draw(rt, c.name+".mtuOfServer") {
+				c.mtu = intp(*s.mtu) // both ends on the same path MTU (the usual set-up)
+			}
 		}
 		c.split = rapid.IntRange(0, 2).Draw(rt, c.name+".split") == 2
 		names := []string{"network", "tcpPathMTUDiscovery", "udpPathMTUDiscovery", "dialerTFO", "tcpFastOpenFallback"}
@@ -275,6 +302,9 @@ func genWorld(rt *rapid.T) *world {
 		}
 		c.authUser, c.authPass = s.authUser, s.authPass
 		c.f = drawFields(rt, "client", c.name, names...)
+		if c.proto == "http" {
+			genClientTLS(rt, c, s)
+		}
 		w.clients = append(w.clients, c)
 	}
 
@@ -437,6 +467,16 @@ func genWorld(rt *rapid.T) *world {
 		}
 	}
 
+	needCerts := false
+	for _, s := range w.servers {
+		needCerts = needCerts || s.tlsOn()
+	}
+	switch {
+	case needCerts || rapid.IntRange(0, 7).Draw(rt, "unusedCertStore") == 7:
+		w.addStandardCerts()
+	default:
+		w.rootF = drawFields(rt, "root", "root", "certs")
+	}
 	for _, s := range w.servers {
 		if s.upskFile != "" {
 			b, _ := json.Marshal(s.users)
@@ -851,6 +891,7 @@ func (w *world) mutations(rt *rapid.T) []mutation {
 			}
 		}
 	}
+	w.tlsMutations(add)
 	for _, d := range w.domainSets {
 		add("duplicate-set", "dup-domain-set", func() { c := *d; w.domainSets = append(w.domainSets, &c) })
 	}
@@ -1006,6 +1047,14 @@ func (w *world) probes(seed uint64) []Probe {
 				p.Kind = "tcp-socks5"
 			case s.proto == "http":
 				p.Kind = "tcp-http"
+				if s.tlsOn() {
+					// through the TLS listener; a certificate is presented when the server asks for one
+					// and, where it does not, by every other probe (it must not matter)
+					p.TLS, p.TLSCert = true, s.tlsRequires() || next()%2 == 0
+					if s.tlsRequires() && !s.tlsVerifiable() {
+						p.ExpectEcho = false // verified against the system roots: no expectation, only no crash
+					}
+				}
 			case s.proto == "none" || s.proto == "plain":
 				p.Kind = "tcp-none"
 			default:
@@ -1020,6 +1069,24 @@ func (w *world) probes(seed uint64) []Probe {
 				p.ExpectFB = hasFB && w.pathOK(s.upTCP, false, 0)
 			}
 			ps = append(ps, p)
+			if p.Kind == "tcp-http" && li == 0 {
+				if s.authUser != "" {
+					// authentication invariant: no tunnel without valid credentials (plain and over TLS)
+					q := p
+					q.Seed, q.Pre407 = next(), true
+					ps = append(ps, q)
+				}
+				if s.tlsVerifiable() {
+					// ... and none for a TLS client without a certificate where one is required
+					ps = append(ps, Probe{Kind: "tls-nocert", Server: s.name, Addr: l.addr(), Target: w.target, Seed: next(), User: s.authUser, Pass: s.authPass})
+				}
+				if s.tlsOn() && !s.tlsRequires() {
+					// the same listener once more with the opposite choice about the client certificate
+					q := p
+					q.Seed, q.TLSCert = next(), !p.TLSCert
+					ps = append(ps, q)
+				}
+			}
 			if li == 0 && p.Kind != "reject" {
 				// the same listener again, payload-less: the relay's wait for an initial payload runs
 				// into its timeout; where the protocol names the target, the target speaks first
@@ -1034,20 +1101,47 @@ func (w *world) probes(seed uint64) []Probe {
 				ps = append(ps, q)
 			}
 		}
-		for _, l := range s.udp {
+		for li, l := range s.udp {
 			p := Probe{Server: s.name, Addr: l.addr(), Target: w.target, Seed: next(), Size: 1 + int(next()%900),
 				ExpectEcho: w.pathOK(s.upUDP, true, 0)}
+			proto := ""
 			switch {
 			case s.proto == "direct":
-				p.Kind, p.Target = "udp-tunnel", ""
+				p.Kind, p.Target, proto = "udp-tunnel", "", "tunnel"
 			case s.proto == "socks5":
-				p.Kind = "udp-socks5"
+				p.Kind, proto = "udp-socks5", "socks5"
 			case s.proto == "none" || s.proto == "plain":
-				p.Kind = "udp-none"
+				p.Kind, proto = "udp-none", "none"
 			default:
 				p.Kind, p.ExpectEcho, p.Target = "udp-garbage", false, ""
 			}
 			ps = append(ps, p)
+			if proto == "" {
+				continue
+			}
+			// 3-40 datagrams back-to-back from one client: they queue up in the session's send channel
+			// and leave in batches of relayBatchSize; every one must be echoed exactly once
+			b := p
+			b.Kind, b.Seed, b.Size, b.Burst = "burst-"+proto, next(), 0, 3+int(next()%38)
+			// Padding is random and only bounded by the MTU of the end that adds it: where the two ends of
+			// a Shadowsocks 2022 hop disagree about the MTU, a padded packet may exceed the other end's
+			// receive buffer. That is a property of the configuration, not a lost datagram.
+			b.ExpectEcho = b.ExpectEcho && w.paddingFits(s.upUDP, 0)
+			b.Note = "burst:relayBatchSize=" + batchClass(l) + ",burst:batchMode=" + fmt.Sprint(l.f.effective("udpl", "batchMode"))
+			if up := w.chainServer(s.upUDP, true); up != nil && len(up.udp) > 0 {
+				b.Note += ",burst-upstream:relayBatchSize=" + batchClass(up.udp[0])
+			}
+			ps = append(ps, b)
+			if li == 0 && proto == "socks5" && len(s.tcp) > 0 && s.tcp[0].port == l.port {
+				// what a SOCKS5 client really does for UDP: UDP ASSOCIATE on the TCP listener, then
+				// datagrams to the relay address the server names
+				a := p
+				a.Kind, a.Seed, a.Addr, a.User, a.Pass = "assoc-socks5", next(), s.tcp[0].addr(), s.authUser, s.authPass
+				ps = append(ps, a)
+			}
+			if li == 0 && proto != "tunnel" {
+				ps = append(ps, w.mtuProbes(s, l, proto, next)...)
+			}
 		}
 	}
 	if w.api != nil {
@@ -1056,6 +1150,181 @@ func (w *world) probes(seed uint64) []Probe {
 			path = "/" + strings.Trim(w.api.secret, "/") + path
 		}
 		ps = append(ps, Probe{Kind: "api", Addr: fmt.Sprintf("127.0.0.1:@@P%d@@", w.api.port), Path: path, Target: `"` + w.servers[0].name + `"`})
+	}
+	return ps
+}
+
+// paddingFits: on every Shadowsocks 2022 hop of the UDP path an end that pads everything (PadAll; the
+// smoke targets are not on port 53) does not have the larger MTU of the two.
+func (w *world) paddingFits(up string, depth int) bool {
+	if depth > 8 {
+		return false
+	}
+	for _, g := range w.groups {
+		if g.name == up {
+			if g.udp == nil {
+				return false
+			}
+			for _, m := range g.udp.clients {
+				if !w.paddingFits(m, depth+1) {
+					return false
+				}
+			}
+			return true
+		}
+	}
+	c := w.client(up)
+	if c == nil || c.toServer < 0 {
+		return true
+	}
+	s := w.servers[c.toServer]
+	if keyLen(c.proto) > 0 && c.mtu != nil && s.mtu != nil {
+		if padRepr(c.f) == "PadAll" && *c.mtu > *s.mtu {
+			return false
+		}
+		if padRepr(s.f) == "PadAll" && *s.mtu > *c.mtu {
+			return false
+		}
+	}
+	return w.paddingFits(s.upUDP, depth+1)
+}
+
+func batchClass(l *lst) string {
+	switch v := l.f.effective("udpl", "relayBatchSize").(int); v {
+	case 1, 2:
+		return fmt.Sprint(v)
+	}
+	return "other"
+}
+
+// single resolves an upstream name to the client that will be used: the client itself, or the only
+// member of a client group.
+func (w *world) single(up string, udp bool) *cli {
+	if up == "direct" && w.clientsMode != 0 {
+		return &cli{name: "direct", proto: "direct", tcp: true, udp: true, toServer: -1, mtu: intp(1500)}
+	}
+	for _, g := range w.groups {
+		if g.name == up {
+			sl := g.tcp
+			if udp {
+				sl = g.udp
+			}
+			if sl == nil || len(sl.clients) != 1 {
+				return nil
+			}
+			return w.single(sl.clients[0], udp)
+		}
+	}
+	return w.client(up)
+}
+
+// chainServer returns the server a proxy upstream leads to (nil for direct upstreams).
+func (w *world) chainServer(up string, udp bool) *srv {
+	if c := w.single(up, udp); c != nil && c.toServer >= 0 {
+		return w.servers[c.toServer]
+	}
+	return nil
+}
+
+// routeAllowsIP: a request of server i for an IP address (any port) takes the same route as its
+// regular smoke traffic.
+func (w *world) routeAllowsIP(i int) bool {
+	if w.targetForm(i, strings.HasPrefix(w.target, "echo.test")) == formIP {
+		return true
+	}
+	s := w.servers[i]
+	for _, r := range w.routes {
+		if len(r.fromServers) == 1 && r.fromServers[0] == s.name && r.network != "tcp" && len(r.extra) > 0 {
+			return false
+		}
+	}
+	return true
+}
+
+// mtuBudget is the documented arithmetic of a Shadowsocks 2022 UDP packet on an IPv4 path of the
+// given MTU (SIP022 + IPv4/UDP headers): client -> server
+//
+//	MTU - 20 (IPv4) - 8 (UDP) - 16 (separate header) - 16 per identity header - 16 (AEAD tag)
+//	    - 1 (type) - 8 (timestamp) - 2 (padding length) - SOCKS address of the target
+//
+// and server -> client the same with 8 more bytes for the client session id and the SOCKS address
+// of the packet source. Padding only uses what is left.
+func mtuBudget(mtu, identityHeaders, targetAddrLen int) (forward, back int) {
+	forward = mtu - 20 - 8 - 16 - 16*identityHeaders - 16 - (1 + 8 + 2) - targetAddrLen
+	back = mtu - 20 - 8 - 16 - 16 - (1 + 8 + 8 + 2) - (1 + 4 + 2)
+	return
+}
+
+func socksAddrLen(target string) int {
+	if strings.HasPrefix(target, "echo.test") {
+		return 1 + 1 + len("echo.test") + 2
+	}
+	return 1 + 4 + 2
+}
+
+func padRepr(f fields) string {
+	d, ok := f["paddingPolicy"]
+	switch {
+	case !ok || d.Mode == mOmit:
+		return "omitted"
+	case d.Mode == mValue:
+		return fmt.Sprint(d.Val)
+	case d.Mode == mDefault:
+		return "PadPlainDNS"
+	case d.Mode == mNull:
+		return "null"
+	}
+	return "empty"
+}
+
+// mtuProbes: where entry server s (socks5 / none) hands its datagrams to a Shadowsocks 2022 client
+// whose server relays them directly, and both ends are configured with the same MTU, payloads of
+// exactly budget-1, budget and budget+1 bytes are sent towards the regular echo port and, where the
+// route allows, towards port 53 (PadPlainDNS pads only there; with PadAll the padding has to shrink
+// to what is left, with nothing left it has to vanish).
+func (w *world) mtuProbes(s *srv, l *lst, proto string, next func() uint64) []Probe {
+	c := w.single(s.upUDP, true)
+	if c == nil || c.toServer < 0 || keyLen(c.proto) == 0 || !c.udp || c.mtu == nil {
+		return nil
+	}
+	up := w.servers[c.toServer]
+	d := w.single(up.upUDP, true)
+	if len(up.udp) == 0 || up.mtu == nil || d == nil || d.toServer >= 0 || d.mtu == nil || !w.pathOK(s.upUDP, true, 0) {
+		return nil
+	}
+	m := *c.mtu
+	if m != *up.mtu || m > 9000 || s.mtu == nil || *s.mtu < m || *d.mtu < m {
+		return nil
+	}
+	idx := 0
+	for i := range w.servers {
+		if w.servers[i] == s {
+			idx = i
+		}
+	}
+	targets := []string{w.target}
+	if w.routeAllowsIP(idx) && w.routeAllowsIP(c.toServer) {
+		targets = append(targets, "@@E53@@")
+	}
+	var ps []Probe
+	for _, t := range targets {
+		fwd, back := mtuBudget(m, len(c.ipsks), socksAddrLen(t))
+		max := min(fwd, back)
+		side := "both"
+		switch {
+		case fwd < back:
+			side = "client"
+		case back < fwd:
+			side = "server"
+		}
+		port := "other"
+		if t == "@@E53@@" {
+			port = "53"
+		}
+		ps = append(ps, Probe{Kind: "mtu-" + proto, Server: s.name, Addr: l.addr(), Target: t, Seed: next(), ExpectEcho: true,
+			Sizes: []int{max + 1, max - 1, max}, Expect: []int{-1, 1, 1},
+			Note: fmt.Sprintf("mtu-boundary,mtu-boundary:%s-side,mtu-boundary:port=%s,mtu-pad:client=%s,mtu-pad:server=%s,mtu-pad:port=%s/client=%s,mtu-pad:port=%s/server=%s",
+				side, port, padRepr(c.f), padRepr(up.f), port, padRepr(c.f), port, padRepr(up.f))})
 	}
 	return ps
 }
@@ -1108,7 +1377,12 @@ func (w *world) classKey() string {
 		}
 		parts = append(parts, fmt.Sprintf("%s/%d/%d/%s/%s>%s", s.proto, len(s.tcp), len(s.udp), form, s.upTCP, s.upUDP))
 	}
-	parts = append(parts, fmt.Sprintf("c%d/g%d/r%d/ds%d/ps%d/rt%d/cm%d/api%v", len(w.clients), len(w.groups), len(w.dns), len(w.domainSets), len(w.prefixSets), len(w.routes), w.clientsMode, w.api != nil))
+	for _, s := range w.servers {
+		if s.tlsOn() {
+			parts = append(parts, fmt.Sprintf("tls/%s/%v/%v/auth%v", s.tls.certList, s.tls.clientCAs != "", s.tls.require, s.authUser != ""))
+		}
+	}
+	parts = append(parts, fmt.Sprintf("c%d/g%d/r%d/ds%d/ps%d/rt%d/cm%d/api%v/certs%v/legacyOnly%v", len(w.clients), len(w.groups), len(w.dns), len(w.domainSets), len(w.prefixSets), len(w.routes), w.clientsMode, w.api != nil, w.certs != nil, w.legacyOnly))
 	sort.Strings(parts[:len(parts)-1])
 	return strings.Join(parts, "|")
 }
